@@ -165,6 +165,14 @@ func (v *VerifShard) Write(rows []influx.Row) error {
 	return v.sh.WriteRows(rows, buf)
 }
 
+// StopIndexBackground stops the series index's timer-driven flusher and part mergers, so that
+// the index touches the disk only when the engine asks it to (deterministic mutation traces).
+func (v *VerifShard) StopIndexBackground() {
+	if idx, ok := v.ib.GetPrimaryIndex().(*tsi.MergeSetIndex); ok {
+		idx.VerifStopBackground()
+	}
+}
+
 // FlushIndex makes series created by earlier writes visible to index searches (the index
 // buffers new items for up to a second before they can be searched).
 func (v *VerifShard) FlushIndex() { v.ib.Flush() }
